@@ -7,6 +7,12 @@ NOTE_COMMON=("Bounded: ranks/sizes/argument ranges as listed in evidence.bounds;
   "(rounding/overflow outside the claim); math.* and gonum samplers are contract stubs; trusted: go/ssa lowering, the executor's "
   "semantics for the SSA instructions met (validated by replaying sampled path models natively), z3 4.8.12, the reference models in /verif/harness.")
 checks={
+ "C12":("MSE/BCE/CE Compute executed symbolically for every batch/class size in the bounds; the scalar is proved equal to the defining formula (clipping as ite), finite and non-negative for all real predictions/targets of magnitude <= 1e6, independent of tracking.","3 C12"),
+ "C13":("Loss gradient w.r.t. the prediction (leaf or product of two tracked leaves) obtained by the real back-propagation is proved equal to the analytic derivative, 0 where clipped, finite including p=0 and p=1.","3 C13"),
+ "C14":("Each activation executed symbolically for every shape/dim/config in the bounds; outputs proved equal to the defining formula; Softmax proved non-negative and summing to 1 along Dim.","3 C14"),
+ "C15":("Gradient through each activation (input a leaf or u*v) with arbitrary upstream proved equal to upstream times derivative (interval membership at 0 for Relu/LeakyRelu).  Softmax on the unchanged tree deviates through the Broadcast mean (known finding bcast_backward_mean, attributed by deviant oracle).","3 C15, 5"),
+ "C16":("FC constructed through the public API (custom and default initializers, replacement through Weights()), Forward and back-propagation executed symbolically for all sizes in the bounds; outputs and gradients compared with the affine formula and its derivatives.  dW/dB deviate by the batch mean on the unchanged tree (known finding bcast_backward_mean).","3 C16, 5"),
+ "C17":("SGD.Update executed symbolically after a real back-propagation: new tensor equals w - lr*g element-wise for all real w, g, lr; old tensor and gradient untouched; error cases replace nothing.","3 C17"),
  "C01":("Bounded symbolic model checking of the back-propagation walk: the solver enumerates every straight-line program shape (operands, op codes, root, tracked flags) within the bound; the gradient of every tensor in the graph is proved equal, as a polynomial identity in the leaf values, to the adjoint of an independent reverse-mode tape; rule-application counts are monitored.","3 C01"),
  "C07":("Explicit Broadcast and implicit expansion in Add/Sub/Mul/Div/Dot/MatMul executed symbolically for every solver-chosen shape pair; the gradient delivered to the original operand is compared with the sum of the upstream over its copies.  The unchanged tree violates this (mean instead of sum): recorded as known finding bcast_backward_mean and attributed per path through a deviant oracle.","3 C07, 5"),
  "C02":("Each of the 33 differentiable ops is applied once with solver-chosen shape/arguments/tracked subset, an arbitrary symbolic upstream weighting is back-propagated through it, and every gradient element is proved finite and equal to an independently written VJP for all real operand values in the differentiability domain.","3 C02"),
